@@ -5,14 +5,16 @@ Tie: the method resolution the translated indexing methods rely on (`harness/py2
 function `AdvancedIndexingMixin.__getitem__` to `Gen.concat_getitem_slice` for the packed collections and to `Gen.siglist_getitem_slice` for the
 list-backed one), read off the *current* sources on every run: the mixin precedes `AbstractSignatureArray` among the bases of both collection
 classes (so its `__getitem__` is the one that runs), each class defines exactly the indexing methods the tables name, and `SignatureArray`,
-`HDF5Signatures`, `ReferenceSignatures` override none of them — what is proved of `Gen.concat_getitem` (`Tie/PyGetitem.lean`) is therefore about
+`HDF5Signatures`, `ReferenceSignatures` override none of them, and the annotated wrapper delegates indexing, length and parameters to the
+collection it wraps — what is proved of `Gen.concat_getitem` (`Tie/PyGetitem.lean`) is therefore about
 `SignatureArray.__getitem__` and `HDF5Signatures.__getitem__` alike.  Structural; core Lean only.
 -/
 namespace GambitV.Tie.Py
 
 theorem class_structure_facts :
     Gen.pyClass_concatBases = true ∧ Gen.pyClass_concatMethods = true ∧ Gen.pyClass_arrayInherits = true ∧ Gen.pyClass_hdf5Inherits = true
-      ∧ Gen.pyClass_listBases = true ∧ Gen.pyClass_listMethods = true ∧ Gen.pyClass_mixinMethods = true ∧ Gen.pyClass_refSigsNeutral = true := by
+      ∧ Gen.pyClass_listBases = true ∧ Gen.pyClass_listMethods = true ∧ Gen.pyClass_mixinMethods = true ∧ Gen.pyClass_refSigsNeutral = true
+      ∧ Gen.pyClass_annotatedDelegates = true := by
   decide
 
 end GambitV.Tie.Py
